@@ -7,6 +7,7 @@ use std::panic::{catch_unwind, AssertUnwindSafe};
 mod sparseset;
 mod plevel;
 mod plevel_ext;
+mod plevel_global;
 mod lp;
 mod limits;
 
@@ -32,6 +33,7 @@ fn main() {
     let f: fn(&str) -> String = match sub {
         "sparseset" => sparseset::run_case,
         "prop" => plevel::run_prop,
+        "prune1" => plevel_global::run_prune1,
         "solve" => plevel::run_solve,
         "ctx" => plevel::run_ctx,
         "view" => plevel::run_view,
